@@ -59,15 +59,19 @@ def build(ctx, n, seed):
             ai.fields["obs"][pos] = obsv[key]
             ai.fields["fcst"][pos] = vals[(60 + i * 40 + (m * 5) % 37)]
             ai.fields["pit"][pos] = ((m * 3 + i) % 9) / 8.0
+            ai.fields["alt"] = ai.fields.get("alt", {})
+            ai.fields["alt"][pos] = vals[(200 + i * 30 + (m * 7) % 29)]
         inputs.append(ai)
     tsub = ctx.choose("clim-times", SUBS3)
     ssub = ctx.choose("clim-locs", SUBS3)
     K = gen.AInput("K.txt", [times[j] for j in tsub], leads, [locs[j] for j in ssub])
     K.fields["fcst"] = {}
     K.fields["pit"] = {}
+    K.fields["alt"] = {}
     for m, pos in enumerate(K.positions()):
         K.fields["fcst"][pos] = vals[(150 + (m * 11) % 41)]
         K.fields["pit"][pos] = 0.5
+        K.fields["alt"][pos] = vals[(120 + (m * 13) % 37)]
     # deviations: missing cells
     fcst_missing = False
     for ai, fields in [(inputs[0], ("obs", "fcst"))] + ([(inputs[1], ("fcst",))] if n > 1 else []) + [(K, ("fcst",))]:
@@ -88,7 +92,9 @@ def build(ctx, n, seed):
     if ctx.choose("obsrange", ("none", "inner")) == "inner":
         ov = sorted(set(obsv.values()))
         orng = [ov[3], ov[-4]]
-    return inputs, K, fcst_missing, orng
+    # deviation: -fcst alt (another field plays the forecast; the anomaly is taken of whatever plays obs and fcst)
+    ffield = "alt" if ctx.choose("-fcst", ("fcst", "alt")) == "alt" else None
+    return inputs, K, fcst_missing, orng, ffield
 
 
 def score_api(data, metric, i, ax, thr):
@@ -105,15 +111,19 @@ def h_api(ctx):
     seed = core.seed()
     n = ctx.choose("inputs", (1, 2), free=True)
     ctype = ctx.choose("type", ("subtract", "divide"), free=True)
-    inputs, K, fcst_missing, orng = build(ctx, n, seed)
+    inputs, K, fcst_missing, orng, ffield = build(ctx, n, seed)
     try:
-        ref = RD.RefData(inputs, clim=K, clim_type=ctype, obs_range=orng)
+        ref = RD.RefData(inputs, clim=K, clim_type=ctype, obs_range=orng, **({"fcst_field": ffield} if ffield else {}))
     except RD.RefError:
         ref = None
     objs = CD.build_inputs(inputs + [K])
     lst = objs[:-1]
     n_before = len(lst)
     kw = {"obs_range": orng} if orng is not None else {}
+    if ffield:
+        import verif.field
+        kw["fcst_field"] = verif.field.Other(ffield)
+        ctx.flag("fcst-field")
     if orng is not None:
         ctx.flag("obsrange")
     kind, data, site, out = H.quiet_call(verif.data.Data, lst, clim=objs[-1], clim_type=ctype, **kw)
@@ -183,20 +193,32 @@ def h_cli(ctx):
     n = ctx.choose("inputs", (1, 2), free=True)
     flag = ctx.choose("flag", ("-c", "-C"), free=True)
     ctype = "subtract" if flag == "-c" else "divide"
-    inputs, K, fcst_missing, orng = build(ctx, n, seed)
+    inputs, K, fcst_missing, orng, ffield = build(ctx, n, seed)
     d = os.path.join(H.scratch(), "c14cli")
     os.makedirs(d, exist_ok=True)
     paths = [gen.text_file(ai, os.path.join(d, ai.name)) for ai in inputs]
     kp = gen.text_file(K, os.path.join(d, K.name), row_order=K.positions()[::-1])
     try:
-        ref = RD.RefData(inputs, clim=K, clim_type=ctype, obs_range=orng)
+        ref = RD.RefData(inputs, clim=K, clim_type=ctype, obs_range=orng, **({"fcst_field": ffield} if ffield else {}))
     except RD.RefError:
         ref = None
     extra = ["-obsrange", "%r,%r" % (orng[0], orng[1])] if orng is not None else []
+    if ffield:
+        extra += ["-fcst", ffield]
+    # deviation: the other climatology flag, with another file, earlier on the command line - the last one given is the one used
+    pre = []
+    if ctx.choose_bool("other-climatology-flag-first"):
+        K2 = K.copy()
+        K2.name = "K2.txt"
+        for pos in K2.fields["fcst"]:
+            K2.fields["fcst"][pos] = K2.fields["fcst"][pos] * 2 + 1
+        k2p = gen.text_file(K2, os.path.join(d, K2.name))
+        pre = ["-C" if flag == "-c" else "-c", k2p]
+        ctx.flag("two-climatology-flags")
     sig = []
     for metric in ("mae", "bias", "fcst"):
         for ax in ("leadtime", "location", "time"):
-            r = H.run_cli(paths + [flag, kp, "-m", metric, "-x", ax, "-type", "csv"] + extra)
+            r = H.run_cli(paths + pre + [flag, kp, "-m", metric, "-x", ax, "-type", "csv"] + extra)
             if ref is None:
                 ctx.require(r.kind == "exit" and r.code not in (0, None), "cli:empty-intersection-not-rejected", kind=r.kind)
                 continue
@@ -234,9 +256,9 @@ def run(tier, only=None):
             continue
         t0 = time.time()
         st = explore.explore(h, mode=mode, k=k, repo_root=core.REPO, time_cap=(300 if tier == "quick" else 3000))
-        subs.append(core.Sub.from_e1(name, st, bound="dev(%d) over climatology coverage/order, missing cells, zero / equal-to-obs climatology value, -obsrange; full over {-c,-C} x {1,2} inputs" % k,
+        subs.append(core.Sub.from_e1(name, st, bound="dev(%d) over climatology coverage/order, missing cells, zero / equal-to-obs climatology value, -obsrange, -fcst <other field>, the other climatology flag first (CLI); full over {-c,-C} x {1,2} inputs" % k,
                                      rule="one execution = one dataset + climatology; requests, 9 metrics x 3 axes, metamorphic pair and naming checks; non-trivial = at least one valid case",
-                                     required_flags=("metamorphic", "obsrange") if name == "api" else (), wall=time.time() - t0))
+                                     required_flags=("metamorphic", "obsrange", "fcst-field") if name == "api" else ("two-climatology-flags",), wall=time.time() - t0))
     return subs
 
 
